@@ -65,6 +65,8 @@ CONFIGS = [
     ("rz1_live", "MC_Flurry", "MC_rz1_live.cfg", {"C11"}, "ok", "thorough", []),
     # reserve() / try_presize racing the lazy initialisation and an insert: every presize loop terminates
     ("rsv1_live", "MC_Flurry", "MC_rsv1_live.cfg", {"C11"}, "ok", "thorough", []),
+    # try_presize retrying its initialisation CAS with a stale size_ctl (PsCasInit <- PsCasInitWrong) must violate Termination
+    ("rsv1_live_mutant", "MC_Flurry", "MC_rsv1_live_mutant.cfg", {"C11"}, "Termination", "thorough", []),
     # an overfull bin in a short table: put -> treeify_bin -> try_presize(2n) across two resize generations
     ("ovf_live", "MC_Flurry", "MC_ovf_live.cfg", {"C11"}, "ok", "thorough", []),
     ("sizing", "Sizing", "Sizing.cfg", {"C14", "C10"}, "ok", "quick", []),
